@@ -10,7 +10,8 @@ from vf.models import linecol as model
 LEVEL = "model_checking"
 RULE = (
     "every string over {a, \\n, \\r} of length <= n x every offset 0..len, on the source side and on the templated side of a "
-    "TemplatedFile (source != templated, so the two newline tables differ), plus PositionMarker.source_position/templated_position "
+    "TemplatedFile (source != templated, so the two newline tables differ), every pair (source, rendered) of equal length <= 5 (thorough 7) over {a, newline} whose "
+    "slices have identical source and rendered ranges (content differs, ranges do not), plus PositionMarker.source_position/templated_position "
     "through a real marker; infer_next_position(raw, l, c) for every raw over {a, \\n} of length <= 6 and l, c in {1, 2, 5}. Every model "
     "case is replayed against the implementation. Non-trivial = the text contains a newline before the offset (line > 1)."
 )
@@ -30,6 +31,10 @@ def cases(tier):
             for p in itertools.product("a\n\r", repeat=k - 5):
                 out.append({"k": "len", "n": k, "p": "".join(p)})
     out.append({"k": "next"})
+    # every PAIR (source, rendered) of equal length over {a, newline} with every way of cutting it into <= 2 slices
+    # whose source and rendered ranges coincide (a value exactly as long as its placeholder may still move a newline)
+    for k in range(1, 6 if tier == "quick" else 8):
+        out.append({"k": "samelen", "n": k})
     return out
 
 
@@ -51,6 +56,45 @@ def run_case(case):
                             res["fails"].append({"clause": "infer_next_position", "features": {}, "detail": {"raw": raw, "l": l, "c": c, "want": want, "got": list(got)}, "case": {"k": "next"}})
                         if "\n" in raw:
                             res["nontrivial"] += 1
+        return res
+    if case["k"] == "samelen":
+        n = case["n"]
+        strs = ["".join(t) for t in itertools.product("a\n", repeat=n)]
+        for src in strs:
+            for templ in strs:
+                for cut in range(0, n):
+                    if cut == 0:
+                        sl = [TemplatedFileSlice("templated", slice(0, n), slice(0, n))]
+                        rs = [RawFileSlice(src, "templated", 0)]
+                    else:
+                        if src[:cut] != templ[:cut]:
+                            continue  # the first slice is a literal: identical text on both sides
+                        sl = [TemplatedFileSlice("literal", slice(0, cut), slice(0, cut)), TemplatedFileSlice("templated", slice(cut, n), slice(cut, n))]
+                        rs = [RawFileSlice(src[:cut], "literal", 0), RawFileSlice(src[cut:], "templated", cut)]
+                    tf = TemplatedFile(source_str=src, fname="f", templated_str=templ, sliced_file=sl, raw_sliced=rs)
+                    for pos in range(n + 1):
+                        res["n"] += 2
+                        ws, wt = model.linecol(src, pos), model.linecol(templ, pos)
+                        gs, gt = tuple(tf.get_line_pos_of_char_pos(pos, source=True)), tuple(tf.get_line_pos_of_char_pos(pos, source=False))
+                        one = {"k": "samelen1", "src": src, "templ": templ, "cut": cut}
+                        if gs != ws:
+                            res["fails"].append({"clause": "source_linecol", "features": {"same_ranges": True}, "detail": {"pos": pos, "want": ws, "got": list(gs)}, "case": one})
+                        if gt != wt:
+                            res["fails"].append({"clause": "templated_linecol", "features": {"same_ranges": True}, "detail": {"pos": pos, "want": wt, "got": list(gt)}, "case": one})
+                    if src != templ:
+                        res["nontrivial"] += 1
+                        res.setdefault("sample", {"src": src, "templ": templ})
+            res["cls"].add(digest(src))
+        return res
+    if case["k"] == "samelen1":
+        src, templ, cut, n = case["src"], case["templ"], case["cut"], len(case["src"])
+        sl = [TemplatedFileSlice("templated", slice(0, n), slice(0, n))] if cut == 0 else [TemplatedFileSlice("literal", slice(0, cut), slice(0, cut)), TemplatedFileSlice("templated", slice(cut, n), slice(cut, n))]
+        rs = [RawFileSlice(src, "templated", 0)] if cut == 0 else [RawFileSlice(src[:cut], "literal", 0), RawFileSlice(src[cut:], "templated", cut)]
+        tf = TemplatedFile(source_str=src, fname="f", templated_str=templ, sliced_file=sl, raw_sliced=rs)
+        for pos in range(n + 1):
+            res["n"] += 1
+            if tuple(tf.get_line_pos_of_char_pos(pos, source=False)) != model.linecol(templ, pos) or tuple(tf.get_line_pos_of_char_pos(pos, source=True)) != model.linecol(src, pos):
+                res["fails"].append({"clause": "templated_linecol", "features": {"same_ranges": True}, "detail": {"pos": pos}})
         return res
     rest = case["n"] - len(case["p"])
     for tup in itertools.product("a\n\r", repeat=rest):
